@@ -1637,6 +1637,16 @@ def tweak(tree):
     return out if done[0] else None
 
 
+def swapcase_names(tree):
+    if isinstance(tree, dns.name.Name):
+        return dns.name.Name([bytes(l).swapcase() for l in tree.labels])
+    if isinstance(tree, tuple):
+        return tuple(swapcase_names(x) for x in tree)
+    if isinstance(tree, list):
+        return [swapcase_names(x) for x in tree]
+    return tree
+
+
 def derel(tree, origin):
     if isinstance(tree, dns.name.Name):
         return tree if tree.is_absolute() else tree.concatenate(origin)
@@ -1682,6 +1692,16 @@ def extra_value_oracle(ctx, case, rep, spec, cls, c, t, tree, rd, w, origin, sig
             ctx.count("val.neq-checked")
             if rd_b == rd or not (rd_b != rd):
                 ctx.fail(f"C02/eq/different-records-equal/{sigt}", f"{tname}: {case['tree']} == {dump(tw)}", rep)
+    # (e) the same record with its names in the other case: where the library calls them equal (types whose canonical
+    #     form folds case), hash / order / membership must agree
+    if any(any(l != bytes(l).swapcase() for l in n.labels) for n in names_in(tree)):
+        try:
+            rd_c = spec.build(cls, c, t, swapcase_names(tree))
+        except Exception:  # noqa: BLE001
+            rd_c = None
+        if rd_c is not None and rd_c == rd:
+            ctx.count("val.case-variant-equal")
+            relations_oracle(ctx, rep, rd, rd_c, f"C02/eq/relations-incoherent-for-case-variant/{sigt}", f"{tname} {case['tree']} vs names in the other case")
     # (d) relative names are not equal to their absolute completion
     if origin is not None and origin.is_absolute() and any(not n.is_absolute() for n in names_in(tree)):
         try:
